@@ -3,7 +3,7 @@ import json
 from vlib import Violation, ToolError, log
 
 RULE = ("events = toroidal_cover of every euclidean 2-D symbol up to a size bound; pseudo_toroidal_cover of the 17 corpus "
-        "symbols and of all 3-D symbols of the domain with <= 3 chambers (thorough: plus a seeded sample of 4 chambers), each with a renumbering "
+        "symbols, of the prisms over euclidean 2-D symbols built by Prism.tla with their 2-sheeted covers (euclidean by construction), and of all 3-D symbols of the domain with <= 3 chambers (thorough: plus a seeded sample of 4 chambers), each with a renumbering "
         "and the dual; non-trivial = event whose cover has >= 2 sheets")
 
 
@@ -12,17 +12,33 @@ def run(ctx):
     ctx.assume("classification of closed surfaces (oriented, no boundary, one handle = torus)",
                "H1 of the large covers is computed by the specification's Smith form on the library's presentation "
                "(fundamental_group is C09's responsibility)")
+    prisms = prism_files(ctx)
     ev = ctx.work / "events.ndjson"
     if ctx.quick:
-        ctx.dsv("C15", "drive", "--out", ev, "--max2d", 5, "--max3d", 3, "--permille", 1000, timeout=7200)
+        ctx.dsv("C15", "drive", "--out", ev, "--max2d", 5, "--max3d", 3, "--permille", 1000,
+                "--prisms", prisms, "--prism-cap", 300, timeout=7200)
     else:
-        ctx.dsv("C15", "drive", "--out", ev, "--max2d", 6, "--max3d", 4, "--permille", 150, timeout=14400)
+        ctx.dsv("C15", "drive", "--out", ev, "--max2d", 6, "--max3d", 4, "--permille", 150,
+                "--prisms", prisms, "--prism-cap", 3000, timeout=14400)
     for ln in open(ev):
         e = json.loads(ln)
         if "cov" in e and e["cov"]["n"] > e["sym"]["n"]:
             ctx.nontrivial.add(json.dumps(e["sym"], sort_keys=True))
     rej = ctx.validate("Trace_C15", ev, shard=25, xmx="6g", timeout=7200)
     ctx.confirm_and_raise("Trace_C15", rej)
+
+
+def prism_files(ctx):
+    """spec -> impl: prisms over the euclidean 2-D symbols of a TLC universe (Prism.tla, lemma MC_Prism): known-euclidean
+    3-D symbols by construction; the harness adds their 2-sheeted covers"""
+    cfgs = ["1", "2"] if ctx.quick else ["1", "2", "3"]
+    for c in (["1", "2"] if ctx.quick else ["1", "2", "3"]):
+        ctx.mc("MC_Prism", cfg=f"MC_Prism_{c}", workers=8, universe=f"prism construction valid on the universe of MC_Prism_{c}.cfg")
+    paths = []
+    for c in cfgs:
+        p, n = ctx.gen("Gen_Prism", f"prisms_{c}.ndjson", cfg=f"Gen_Prism_{c}")
+        paths.append(str(p))
+    return ",".join(paths)
 
 
 def replay(ctx, path):
